@@ -180,6 +180,10 @@ struct PeerState {
     closed: bool,
 }
 
+/// While set, every scripted destination fails its next read with ConnectionReset (the tunnel's pipe
+/// ends on the endpoint's side, as it does on an idle expiry or a destination failure)
+pub static PEERS_FAIL_NOW: std::sync::atomic::AtomicBool = std::sync::atomic::AtomicBool::new(false);
+
 struct PeerSrc {
     st: Arc<Mutex<PeerState>>,
     response: Vec<u8>,
@@ -205,6 +209,9 @@ impl VSource for PeerSrc {
                 if g.closed {
                     return Ok(VData::Eof);
                 }
+            }
+            if PEERS_FAIL_NOW.load(std::sync::atomic::Ordering::SeqCst) {
+                return Err(io::Error::from(io::ErrorKind::ConnectionReset));
             }
             tokio::time::sleep(Duration::from_millis(5)).await;
         }
